@@ -83,15 +83,15 @@ func c16Run(c c16Case) error {
 		c12AddCompanion(req.ProtoReflect())
 	}
 	vfshared.FillEmptyNamespaces(req.ProtoReflect(), allowedName)
+	// merged paths sharing a oneof or a singular blob overwrite each other: take the truth from the final message
+	probe := &vfshared.RefTranslator{NS: map[string]string{forbiddenName: forbiddenName}}
+	_, _ = probe.Translate(proto.Clone(req).ProtoReflect())
+	anyForbidden = probe.NSHits > 0
 	corrupted := false
 	if c.Corrupt && c.Companion {
 		corrupted = c16CorruptBlobs(req.ProtoReflect())
 	}
 	original := proto.Clone(req)
-	// merged paths sharing a oneof or a singular blob overwrite each other: take the truth from the final message
-	probe := &vfshared.RefTranslator{NS: map[string]string{forbiddenName: forbiddenName}}
-	_, _ = probe.Translate(proto.Clone(req).ProtoReflect())
-	anyForbidden = probe.NSHits > 0
 
 	var chain []grpc.UnaryServerInterceptor
 	if c.Translation {
